@@ -96,5 +96,8 @@ _db("C16", "A torn final write costs at most the unacknowledged tail", ["c16:", 
 _db("C08", "I/O failures are reported, never swallowed; nothing acknowledged is lost", ["c08:", "c09:"],
     "Lean 4 proof over the fault model + single-fault enumeration on SimFs", "under construction", [], [], comps=("c08",))
 
+_db("C15", "Corrupted files are detected, never served as data", ["c15:"],
+    "Lean 4 proof for the CRC-protected spans + exhaustive single-byte corruption of small images", "under construction", [], [], comps=("c15",))
+
 # properties whose check is registered in MANIFEST.json
 CLAIMED = ["C12", "C13", "C14"]
